@@ -113,16 +113,18 @@ def make_capacity(dialect, two_items):
 
 
 NAMES4 = ["customer_id", "select", "index", "surname"]
+MIXED = [("Text", "...20", ""), ("Integer", "", "0...40000"), ("Decimal", "", "0...9.99"), ("Integer", "", "-5...5")]
 
 
-def make_columns(dialect, n):
+def make_columns(dialect, n, mixed=False):
     def go(flags):
         from cutplace import sql
 
         df = ff.data_format("delimited")
         fields_ = []
         for i in range(n):
-            f = ff.build_field("Text", False, "...20", "", df, name=NAMES4[i])
+            t, length, rule = MIXED[i] if mixed else ("Text", "...20", "")
+            f = ff.build_field(t, False, length, rule, df, name=NAMES4[i])
             f._is_allowed_to_be_empty = flags[i]
             fields_.append(f)
         d = dialect_of(dialect)
@@ -137,6 +139,14 @@ def make_columns(dialect, n):
             want = ('"%s"' % NAMES4[i]) if quoted else NAMES4[i]
             if cols[i]["name"] != want or cols[i]["not_null"] != (not flags[i]):
                 ok = False
+            if mixed:
+                t = MIXED[i][0]
+                if t == "Integer" and (cols[i]["type"] not in CAPACITY or cols[i]["p"] is not None):
+                    ok = False  # an integer column carries no size
+                if t == "Text" and (cols[i]["p"] != 20 or cols[i]["s"] is not None):
+                    ok = False
+                if t == "Decimal" and (cols[i]["p"] != 3 or cols[i]["s"] != 2):
+                    ok = False
         return ok, "cols%d" % n, stmt
 
     def mk(mode):
@@ -149,15 +159,20 @@ def make_columns(dialect, n):
     def replay(args):
         from cutplace import interface, sql
         flags = [args["e0"], args["e1"], args["e2"], args["e3"]]
-        text = "d,format,delimited\n" + "".join("f,%s,,%s,...20,Text\n" % (NAMES4[i], "X" if flags[i] else "") for i in range(n))
+        decl = [MIXED[i] if mixed else ("Text", "...20", "") for i in range(n)]
+        text = "d,format,delimited\n" + "".join("f,%s,,%s,%s,%s,%s\n" % (NAMES4[i], "X" if flags[i] else "", decl[i][1], decl[i][0],
+                                                                       decl[i][2]) for i in range(n))
         cid = interface.create_cid_from_string(text)
         d = dialect_of(dialect)
         stmt = sql.SqlFactory(cid, "t", d).create_table_statement()
+        ok, _, _ = go(flags)
         cols = parse_columns(stmt)
-        bad = len(cols) != n
+        bad = (not ok) or len(cols) != n
         for i in range(0 if bad else n):
             want = ('"%s"' % NAMES4[i]) if d.is_keyword(NAMES4[i]) else NAMES4[i]
             if cols[i]["name"] != want or cols[i]["not_null"] != (not flags[i]):
+                bad = True
+            if decl[i][0] == "Integer" and cols[i]["p"] is not None:
                 bad = True
         return bad, "%s, empty flags %r: %r" % (dialect, flags[:n], stmt), "sql-columns"
 
@@ -191,6 +206,31 @@ def native_checks():
                     fail("sql-keyword-quoting", "%s: field %r rendered as %r, expected %r" % (dname, w, col["name"], want), dialect=dname, name=w)
             except Exception as e:  # noqa
                 fail("sql-keyword-quoting", "%s: field %r: %s: %s" % (dname, w, type(e).__name__, e), dialect=dname, name=w)
+    # integer capacity at and around every type boundary (floats / logarithms in an implementation show up here)
+    bounds = set()
+    for b in [2 ** 7, 2 ** 8, 2 ** 15, 2 ** 16, 2 ** 31, 2 ** 32, 2 ** 63, 2 ** 64] + [10 ** k for k in range(1, 31)]:
+        bounds.update([b - 1, b, b + 1])
+    bounds = sorted(bounds)
+    for dname in DIALECTS:
+        d = dialect_of(dname)
+        top = 10 ** MAX_PRECISION[dname] - 1
+        for b in bounds:
+            for lo, hi in ((0, b), (-b, 5), (-b, b), (-1, b)):
+                if hi >= top or -lo >= top:
+                    continue
+                n += 1
+                try:
+                    cid = interface.create_cid_from_string("d,format,delimited\nf,n,,,,Integer,\"%d...%d\"\n" % (lo, hi))
+                    stmt = sql.SqlFactory(cid, "t", d).create_table_statement()
+                    col = parse_columns(stmt)[0]
+                    ok, why = holds(col["type"], col["p"] if col["type"] in ("decimal", "number") else None, dname, lo, hi)
+                    if ok and col["type"] in CAPACITY and col["p"] is not None:
+                        ok, why = False, "integer type rendered with a size"
+                except Exception as e:  # noqa
+                    ok, why, stmt = False, "%s: %s" % (type(e).__name__, e), "?"
+                if not ok and not (dname == "transact" and lo < 0 and col["type"] == "tinyint"):
+                    fail("sql-integer-boundary", "%s: Integer rule %d...%d -> %r: %s" % (dname, lo, hi, stmt.split("\n")[1].strip() if "\n" in stmt else stmt, why),
+                         dialect=dname, lo=lo, hi=hi)
     # decimal digits and text lengths
     for dname in ("ansi", "transact", "db2", "pl"):
         d = dialect_of(dname)
@@ -230,6 +270,10 @@ def build(tier, seed):
             q.append(Query("C19/columns/%s/%d" % (dialect, n), "columns", mk,
                            "%d Text fields (names %r) with symbolic empty flags, dialect %s" % (n, NAMES4[:n], dialect),
                            budget_s=120, replay=rp, functions=FUNCS, stubs=("S-FMT",)))
+        mk, rp = make_columns(dialect, 4, mixed=True)
+        q.append(Query("C19/columns/%s/mixed-types" % dialect, "columns", mk,
+                       "Text, Integer, Decimal, Integer fields in this order with symbolic empty flags, dialect %s: sizes belong "
+                       "to their own column only" % dialect, budget_s=120, replay=rp, functions=FUNCS, stubs=("S-FMT",)))
     return dict(queries=q, native=native_checks,
                 assumptions=["capacities: tinyint 0..255, smallint 16 bit, int/integer 32 bit, bigint 64 bit, Oracle int = "
                              "number(38); decimal/number(p) holds |x| < 10^p with p <= 38 (Transact-SQL, Oracle) / 31 (DB2)",
